@@ -52,6 +52,7 @@ type Ctx struct {
 	Notes  []string
 	Undec  []string
 	relPfx string
+	ruleAlias   map[string]string
 	renamed     map[string]*ssa.Function // reference name -> function now carrying another name (anchors.go)
 	RenameNotes []string
 }
@@ -69,10 +70,27 @@ func (c *Ctx) pos(p token.Pos) string {
 }
 
 // rule registers the text of a rule (shown in evidence).
-func (c *Ctx) rule(id, text string) { c.Rules[id] = text }
+func (c *Ctx) rule(id, text string) {
+	if a, ok := c.ruleAlias[id]; ok {
+		if prev := c.Rules[a]; prev != "" && !strings.Contains(prev, text) {
+			text = prev + " || " + text
+		}
+		id = a
+	}
+	c.Rules[id] = text
+}
+
+// ra maps a rule id through the alias table (a property re-using another property's rule set under its own id).
+func (c *Ctx) ra(rule string) string {
+	if a, ok := c.ruleAlias[rule]; ok {
+		return a
+	}
+	return rule
+}
 
 // ob records an obligation. ok=true → discharged.
 func (c *Ctx) ob(rule, construct string, p token.Pos, ok bool, detail string, path ...string) *Obligation {
+	rule = c.ra(rule)
 	v := "discharged"
 	if !ok {
 		v = "violated"
@@ -89,6 +107,7 @@ func (c *Ctx) ob(rule, construct string, p token.Pos, ok bool, detail string, pa
 
 // info records an advisory observation (never a violation).
 func (c *Ctx) info(rule, construct string, p token.Pos, detail string) {
+	rule = c.ra(rule)
 	c.Obs = append(c.Obs, &Obligation{Rule: rule, Construct: construct, Pos: c.pos(p), Verdict: "info", Detail: detail})
 }
 
@@ -98,6 +117,7 @@ func (c *Ctx) undecided(format string, a ...interface{}) {
 
 // floor fails the check as UNDECIDED when a rule matched fewer sites than confirmed by hand.
 func (c *Ctx) floor(rule string, min int) {
+	rule = c.ra(rule)
 	if c.Sites[rule] < min {
 		c.undecided("rule %s matched %d sites, floor is %d (rule no longer matches the code base)", rule, c.Sites[rule], min)
 	}
